@@ -85,7 +85,9 @@ void do_plan(int tier)
     plan.init_threads = 0;  // the tasking system is used without having been initialised
     plan.lazy_teardown = lane == LANE_INTERNAL;
   }
-  sim_set_cores(2 + (int)sim_plan(5));
+  int cores = 2 + (int)sim_plan(5);
+  sim_set_cores(cores);
+  sim_set_affinity(sim_plan(6) == 0 ? 1 + (int)sim_plan((uint32_t)cores - 1) : 0);  // the process may be confined to fewer CPUs than are online
   sim_set_tso(sim_plan(4) == 0);
   plan.ncalls = 1 + (int)sim_plan(C01_MAXCALLS);
   long long total = 0;
